@@ -347,6 +347,26 @@ pub fn drive_sys(sim: &Sim, mut w: World, prop: &str) -> RunResult2 {
         sim.probe("system-no-reachable-destination");
         return Ok(());
     }
+    while dsts.len() > 4 {
+        let k = sim.idx(dsts.len());
+        dsts.remove(k);
+    }
+    // steering needs alternatives: mostly talk to the destinations towards which the control plane offers most paths
+    if dsts.len() > 2 && sim.chance(3, 4) {
+        let reg0 = SegmentRegistry::from_topology(&w.real);
+        let when = chrono::DateTime::<chrono::Utc>::from_timestamp(BASE_SECS as i64 - 10, 0).expect("timestamp");
+        let count = |d: usize| -> usize {
+            let (s_ia, d_ia) = (w.m.isd_asn(src), w.m.isd_asn(d));
+            reg0.endhost_list_segments(s_ia, s_ia, d_ia)
+                .ok()
+                .and_then(|segs| segs.into_path_segments(&w.real, when, 1, 255).ok())
+                .map(|ps| combine(s_ia, d_ia, ps.iter_cores().cloned().collect(), ps.iter_non_cores().cloned().collect()).into_iter().filter(|p| !is_peering(p)).count())
+                .unwrap_or(0)
+        };
+        let mut scored: Vec<(usize, usize)> = dsts.iter().map(|d| (count(*d), *d)).collect();
+        scored.sort_by(|a, b| b.0.cmp(&a.0).then(a.1.cmp(&b.1)));
+        dsts = scored.into_iter().take(2).map(|x| x.1).collect();
+    }
     while dsts.len() > 2 {
         let k = sim.idx(dsts.len());
         dsts.remove(k);
@@ -413,6 +433,7 @@ pub fn drive_sys(sim: &Sim, mut w: World, prop: &str) -> RunResult2 {
 
     let n_ops = 6 + sim.idx(24);
     let mut last_route: Option<Vec<(u64, u16)>> = None;
+    let mut last_dst: Option<usize> = None;
     for _ in 0..n_ops {
         match sim.draw(12) {
             // the application sends and the network carries the datagram
@@ -425,6 +446,7 @@ pub fn drive_sys(sim: &Sim, mut w: World, prop: &str) -> RunResult2 {
                 let path = s.delivered_path_of(&pkt);
                 if let Some(p) = &path {
                     last_route = egresses(p);
+                    last_dst = Some(d);
                 }
                 sim.log(format!("  network: {fate:?}"));
                 sim.probe("system-datagram-carried");
@@ -452,10 +474,23 @@ pub fn drive_sys(sim: &Sim, mut w: World, prop: &str) -> RunResult2 {
             // a link under the traffic breaks
             6 | 7 => {
                 let Some(route) = &last_route else { continue };
-                if route.len() < 2 {
+                if route.is_empty() {
                     continue;
                 }
-                let (x, i) = route[sim.idx(route.len() - 1)];
+                // mostly a link that some other cached path to the same destination avoids (so that steering is possible)
+                let mut pick = route[sim.idx(route.len())];
+                if sim.chance(3, 4) {
+                    let dst_ia = last_dst.map(|d| s.net.lock().unwrap().w.m.isd_asn(d));
+                    if let Some(view) = dst_ia.and_then(|ia| s.view(ia)) {
+                        let others: Vec<Vec<(u64, u16)>> = view.cached.iter().filter_map(|(p, _, _)| egresses(p)).filter(|e| e != route).collect();
+                        let avoidable: Vec<(u64, u16)> = route.iter().copied().filter(|l| others.iter().any(|o| !o.contains(l))).collect();
+                        if !avoidable.is_empty() {
+                            pick = avoidable[sim.idx(avoidable.len())];
+                            sim.probe("system-link-down-avoidable");
+                        }
+                    }
+                }
+                let (x, i) = pick;
                 let mut net = s.net.lock().unwrap();
                 let Some(a) = net.w.m.idx_of(x) else { continue };
                 if i == 0 {
@@ -553,6 +588,12 @@ fn check_steering(s: &mut Sys, dst: usize, x: u64, i: u16, used: Option<&ScionPa
         .filter(|p| egresses(p).map(|eg| !eg.iter().any(|e| learned.contains(e))).unwrap_or(false))
         .collect();
     sim.probe("oracle-system-steering-premise");
+    sim.probe(match view.cached.len() {
+        0 => "system-premise-cached-0",
+        1 => "system-premise-cached-1",
+        2 => "system-premise-cached-2",
+        _ => "system-premise-cached-3-or-more",
+    });
     if alts.is_empty() || 1.0 <= s.swap_thr + 0.02 {
         return Ok(());
     }
